@@ -195,6 +195,17 @@ fn apply_run(base: &Components, run: &Value) -> Components {
     c
 }
 
+/// an input that fails before any evaluation still yields one event per run of the history,
+/// so that the histories keep their shape in the trace
+fn fail_all(case: &Value, out: &mut dyn Write, o: Value) {
+    let default_runs = vec![json!({"tag": "base"})];
+    for run in case["runs"].as_array().unwrap_or(&default_runs) {
+        let mut ev = json!({"ev": "Eval", "case": case["case"], "tag": run["tag"].as_str().unwrap_or("base"), "run": run});
+        ev["out"] = o.clone();
+        writeln!(out, "{}", ev).ok();
+    }
+}
+
 fn run_case(case: &Value, out: &mut dyn Write) {
     let id = case["case"].clone();
     let base_ev = |tag: &str| json!({"ev": "Eval", "case": id, "tag": tag});
@@ -218,30 +229,22 @@ fn run_case(case: &Value, out: &mut dyn Write) {
     let base = match parsed {
         Outcome::Ok(c) => c,
         Outcome::Err(k, m) => {
-            let mut ev = base_ev("base");
-            ev["out"] = fail("parse", k, &m);
-            writeln!(out, "{}", ev).ok();
+            fail_all(case, out, fail("parse", k, &m));
             return;
         }
         Outcome::Panic(m) => {
-            let mut ev = base_ev("base");
-            ev["out"] = fail("parse", "Panic", &m);
-            writeln!(out, "{}", ev).ok();
+            fail_all(case, out, fail("parse", "Panic", &m));
             return;
         }
     };
     let fac0 = match build_factors(&case["fac"]) {
         Outcome::Ok(f) => f,
         Outcome::Err(k, m) => {
-            let mut ev = base_ev("base");
-            ev["out"] = fail("factors", k, &m);
-            writeln!(out, "{}", ev).ok();
+            fail_all(case, out, fail("factors", k, &m));
             return;
         }
         Outcome::Panic(m) => {
-            let mut ev = base_ev("base");
-            ev["out"] = fail("factors", "Panic", &m);
-            writeln!(out, "{}", ev).ok();
+            fail_all(case, out, fail("factors", "Panic", &m));
             return;
         }
     };
@@ -265,6 +268,15 @@ fn run_case(case: &Value, out: &mut dyn Write) {
         let area_v = run.get("area").unwrap_or(&case["area"]).clone();
         let lm = run.get("lm").and_then(|x| x.as_bool()).unwrap_or(case["lm"].as_bool().unwrap_or(false));
         let comps = apply_run(&base, run);
+        if run.get("scale").is_some() {
+            // the properties quantify over values that are zero or >= 0.01 kWh: a scaling that takes a
+            // non-zero value below that is not a valid transform of this input (no event)
+            let too_small = comps.data.iter().any(|e| e.values().iter().any(|x| *x != 0.0 && x.abs() < 0.01));
+            let too_small0 = base.data.iter().any(|e| e.values().iter().any(|x| *x != 0.0 && x.abs() < 0.01));
+            if too_small || too_small0 {
+                continue;
+            }
+        }
         let mut fac = fac0.clone();
         let mut strip_panic = None;
         if run.get("strip").and_then(|x| x.as_bool()).unwrap_or(false) {
@@ -366,8 +378,19 @@ fn run_case(case: &Value, out: &mut dyn Write) {
                     }
                     let balkeys: Vec<&str> = f.m.keys().filter_map(|k| k.strip_prefix("bal.")).collect();
                     let m2keys: Vec<&str> = f.m.keys().filter_map(|k| k.strip_prefix("m2.")).collect();
-                    ev["out"] = json!({"ok": true, "crs": crs, "srvs": srvs, "srcs": srcs,
-                                       "balkeys": balkeys, "m2keys": m2keys, "flat": f.m});
+                    // DHW renewable fraction (cte::fraccion_renovable_acs_nrb), a ratio in millionths
+                    let acs = match catch_unwind(AssertUnwindSafe(|| cte::fraccion_renovable_acs_nrb(&ep))) {
+                        Ok(Ok(v)) if v.is_finite() => json!({"ok": true, "v": ((v as f64) * 1e6).round().clamp(-2.0e9, 2.0e9) as i64}),
+                        Ok(Ok(_)) => json!({"ok": false, "err": "NonFinite"}),
+                        Ok(Err(e)) => json!({"ok": false, "err": err_kind(&e)}),
+                        Err(_) => json!({"ok": false, "err": "Panic"}),
+                    };
+                    let mut tk: Vec<&String> = f.tkeys.iter().filter(|k| !k.ends_with(".f_match")).collect();
+                    tk.sort();
+                    let mut fk: Vec<&String> = f.tkeys.iter().filter(|k| k.ends_with(".f_match")).collect();
+                    fk.sort();
+                    ev["out"] = json!({"ok": true, "crs": crs, "srvs": srvs, "srcs": srcs, "acs": acs,
+                                       "balkeys": balkeys, "m2keys": m2keys, "tkeys": tk, "fkeys": fk, "flat": f.m});
                 }
             }
             Outcome::Err(k, m) => ev["out"] = fail("eval", k, &m),
@@ -383,8 +406,23 @@ fn main() {
     let args: Vec<String> = std::env::args().collect();
     let mode = args.get(1).map(|s| s.as_str()).unwrap_or("cases");
     let stdin = std::io::stdin();
-    let stdout = std::io::stdout();
-    let mut out = std::io::BufWriter::new(stdout.lock());
+    // the trace goes to a file: the library itself prints to stdout in places
+    // (e.g. a stray println! in cte::fraccion_renovable_acs_nrb), which would corrupt a trace on stdout
+    let path = match args.get(2) {
+        Some(p) => p.clone(),
+        None => {
+            eprintln!("usage: run <mode> <trace-file> < cases.ndjson");
+            std::process::exit(2);
+        }
+    };
+    let file = match std::fs::File::create(&path) {
+        Ok(f) => f,
+        Err(e) => {
+            eprintln!("harness: cannot create {}: {}", path, e);
+            std::process::exit(2);
+        }
+    };
+    let mut out = std::io::BufWriter::new(file);
     match mode {
         "cases" => {
             for line in stdin.lock().lines() {
